@@ -285,13 +285,17 @@ def main(argv):
                 os.replace(tmp, path)
             status[name] = {'ok': True, 'changed': old != text}
         except (Unsupported, SyntaxError, OSError) as exc:
-            if os.path.exists(path):
-                os.remove(path)
+            # remove the source AND every compiled artefact, otherwise the stale .vo keeps the old
+            # model alive for the files that import it
+            for ext in ('.v', '.vo', '.vos', '.vok', '.glob'):
+                if os.path.exists(path[:-2] + ext):
+                    os.remove(path[:-2] + ext)
             status[name] = {'ok': False, 'error': '%s: %s' % (type(exc).__name__, exc)}
     return status
 
 
 if __name__ == '__main__':
+    sys.modules.setdefault('gen', sys.modules['__main__'])   # plug-ins `import gen` must see this module
     st = main(sys.argv[1:])
     print(json.dumps(st, indent=1))
     sys.exit(0 if all(v['ok'] for v in st.values()) else 2)
